@@ -297,6 +297,30 @@ def scenarios : List (String × List Item) :=
         emit (.op (.deactivate fi))
         emit (.op (.rootDtor r))) ]
 
+/-! ### then^n(leaf) as plain recursive lists (for the induction in Proto/AsyncStackFamily.lean) -/
+
+/-- `if (parentFrame) frame_->setParentFrame(*parentFrame);` -/
+def setParentOps (f : Nat) : Option Nat → List Op
+  | some p => [Op.setParent f p]
+  | none => []
+
+/-- nested `_op_wrapper::start()` of `k` operations with frames `f, f+1, …` (outermost first) on fresh roots `r, r+1, …` -/
+def startNest (recv : Option Nat) (f r : Nat) : Nat → List Op
+  | 0 => []
+  | k+1 => Op.rootCtor :: (setParentOps f recv ++
+            (Op.activate r f :: (startNest (some f) (f+1) (r+1) k ++ [Op.ensureDeactivated r f, Op.rootDtor r])))
+
+/-- a completion travelling outwards through `k` receiver wrappers; the wrapper at depth `k` (counting
+    from the outside, 1-based) copies the parent of frame `base + k - 2`, the outermost one has no receiver frame -/
+def completeNest (base : Nat) : Nat → Nat → Nat → List Op
+  | _, _, 0 => []
+  | nf, r, k+1 => Op.newFrame :: Op.rootCtor :: ((if k = 0 then [] else [Op.copyParent nf (base + k - 1)]) ++
+      (Op.activate r nf :: (completeNest base (nf + 1) (r + 1) k ++ [Op.deactivate nf, Op.rootDtor r])))
+
+/-- then^n(leaf), leaf pending: connect (n+1 frames, outermost first), start, completion -/
+def thenOps (n : Nat) : List Op :=
+  List.replicate (n + 1) Op.newFrame ++ startNest none 0 0 (n + 1) ++ completeNest 0 (n + 1) (n + 1) (n + 1)
+
 /-- the answer to `ask asyncstack <scenario> |` -/
 def scenarioAnswer (items : List Item) : String :=
   " | ".intercalate (runItems St.init 0 items []) ++ " | disc " ++ discOf (opsOf items)
